@@ -86,6 +86,7 @@ func c13Run(P, L, D time.Duration, want int, closeAfter time.Duration) (res c13R
 	b := kcache.NewBuilder().Context(ctx).Log(newPlog(false, 1)).Client(a).Filter(slow)
 	b.Lister().RefreshPeriod(P)
 	root, err := b.Create()
+	builderReusedAfterCreate(b, P) // the builder goes on to another configuration: the controller keeps its own
 	if err != nil {
 		return c13Result{violation: "create: " + err.Error()}
 	}
@@ -329,6 +330,7 @@ func TestC13_CloseDuringSlowList(t *testing.T) {
 		b := kcache.NewBuilder().Context(ctx).Log(newPlog(false, 1)).Client(a)
 		b.Lister().RefreshPeriod(P)
 		root, err := b.Create()
+		builderReusedAfterCreate(b, P) // the builder goes on to another configuration: the controller keeps its own
 		if err != nil {
 			t.Fatalf("create: %v", err)
 		}
@@ -407,6 +409,7 @@ func TestC13_RunsOrStops(t *testing.T) {
 		b := kcache.NewBuilder().Context(ctx).Log(newPlog(false, 1)).Client(a)
 		b.Lister().RefreshPeriod(P)
 		root, err := b.Create()
+		builderReusedAfterCreate(b, P) // the builder goes on to another configuration: the controller keeps its own
 		if err != nil {
 			t.Fatalf("create: %v", err)
 		}
@@ -482,6 +485,7 @@ func TestC13_LongPeriods(t *testing.T) {
 		b := kcache.NewBuilder().Context(ctx).Log(newPlog(false, 1)).Client(a)
 		b.Lister().RefreshPeriod(P)
 		root, err := b.Create()
+		builderReusedAfterCreate(b, P) // the builder goes on to another configuration: the controller keeps its own
 		if err != nil {
 			t.Fatalf("create: %v", err)
 		}
@@ -535,6 +539,7 @@ func TestC13_SlowListScale(t *testing.T) {
 		b := kcache.NewBuilder().Context(ctx).Log(newPlog(false, 1)).Client(a)
 		b.Lister().RefreshPeriod(P)
 		root, err := b.Create()
+		builderReusedAfterCreate(b, P) // the builder goes on to another configuration: the controller keeps its own
 		if err != nil {
 			t.Fatalf("create: %v", err)
 		}
@@ -579,4 +584,16 @@ func TestC13_SlowListScale(t *testing.T) {
 			return map[string]interface{}{"mode": "one very slow list, then relisting continues", "period": P.String(), "list_latency": L.String()}
 		}, "slow_list_scale")
 	}
+}
+
+
+// builderReusedAfterCreate: a Builder is a reusable recipe; what was created from it keeps the
+// configuration it was created with.  Right after Create() the harness points the builder at a very
+// different refresh period (as a caller preparing a second controller would).
+func builderReusedAfterCreate(b kcache.Builder, P time.Duration) {
+	other := time.Hour
+	if P >= time.Minute {
+		other = time.Millisecond
+	}
+	b.Lister().RefreshPeriod(other)
 }
